@@ -195,10 +195,11 @@ func (m *Machine) ifaceModel(st *State, fr *Frame, instr ssa.Instruction, iname 
 	case iname == "context.Context.Err":
 		use("non-nil iff Done is closed; stable once non-nil")
 		ch := c.App("ctxDone", IntSort, recv.Tag, recv.Val)
-		err := &Iface{c.App("ctxErrTag", IntSort, recv.Tag, recv.Val, c.Int(int64(st.chanVer))), c.App("ctxErrVal", IntSort, recv.Tag, recv.Val, c.Int(int64(st.chanVer)))}
+		// the error a context ends with is fixed per context; Err() is nil until Done is closed and that error afterwards
+		final := &Iface{c.App("ctxErrTag", IntSort, recv.Tag, recv.Val), c.App("ctxErrVal", IntSort, recv.Tag, recv.Val)}
 		closed := m.chanClosed(st, ch)
-		m.assumeOnce(st, c.And(c.ILe(c.Int(0), err.Tag), c.ILe(c.Int(0), err.Val), c.Eq(c.Neq(err.Tag, c.Int(0)), closed),
-			c.Implies(c.Eq(err.Tag, c.Int(0)), c.Eq(err.Val, c.Int(0)))))
+		m.assumeOnce(st, c.And(c.ILt(c.Int(0), final.Tag), c.ILe(c.Int(0), final.Val)))
+		err := &Iface{c.Ite(closed, final.Tag, c.Int(0)), c.Ite(closed, final.Val, c.Int(0))}
 		m.addEvent(st, iname, all, []Value{err})
 		return []Value{err}
 	case iname == "io.ReadWriteCloser.Write" || iname == "io.Writer.Write":
